@@ -26,6 +26,8 @@ anything else than these rewrites:
       is `d.update(e)`;
   N6c a function defined inside the function and only ever called by name (one returned expression, a decision list, or a
       straight-line procedure) is substituted at its calls;
+  N6d a pure search with a found-flag (`for..: for..: if c: <acts>; flag = True; break` / `if flag: break`): the acts are done right
+      behind the loops under `if flag:`; `if t: A` directly followed by `if t: B else: C` is `if t: A; B else: C` (t a local name);
   N7  `x = x op e` is `x op= e`; `v = <constant or empty container>` for a local v sinks past statements that do not mention v
       and into both arms of an if/else;
   N8  bound names (locals, comprehension variables, lambda parameters) are numbered in order of appearance.
@@ -674,6 +676,93 @@ def _ifs(fn) -> bool:
     return changed
 
 
+def _hoist_hit_body(fn) -> bool:
+    """A pure search with a found-flag: `for a in A: (for b in B:) if c: S...; flag = True; S...; break` `if flag: break`. Nothing runs
+    between the hit and the exit of the loops, and the loop variables keep their values, so what is done at the hit can as well be done
+    right behind the loops under `if flag:` - the normal form does it there."""
+    changed = False
+    for owner, f, b in list(_blocks(fn)):
+        for i, outer in enumerate(b):
+            if not isinstance(outer, ast.For) or outer.orelse:
+                continue
+            # descend through loops whose body is [inner loop, `if flag: break`] down to [`if c: ...; break`]
+            chain = [outer]
+            cur = outer
+            flag = None
+            ok = True
+            while True:
+                body = [x for x in cur.body if not isinstance(x, ast.Pass)]
+                if len(body) == 2 and isinstance(body[0], ast.For) and not body[0].orelse and isinstance(body[1], ast.If) and not body[1].orelse \
+                        and isinstance(body[1].test, ast.Name) and len(body[1].body) == 1 and isinstance(body[1].body[0], ast.Break):
+                    if flag is not None and flag != body[1].test.id:
+                        ok = False
+                        break
+                    flag = body[1].test.id
+                    cur = body[0]
+                    chain.append(cur)
+                    continue
+                break
+            if not ok:
+                continue
+            body = [x for x in cur.body if not isinstance(x, ast.Pass)]
+            if not (len(body) == 1 and isinstance(body[0], ast.If) and not body[0].orelse and body[0].body and isinstance(body[0].body[-1], ast.Break)):
+                continue
+            hit = body[0]
+            sets = [x for x in hit.body if isinstance(x, ast.Assign) and len(x.targets) == 1 and isinstance(x.targets[0], ast.Name)
+                    and isinstance(x.value, ast.Constant) and x.value.value is True and (flag is None or x.targets[0].id == flag)]
+            if len(sets) != 1:
+                continue
+            flag = sets[0].targets[0].id
+            act = [x for x in hit.body[:-1] if x is not sets[0]]
+            if not act:
+                continue
+            # the acts must not leave or re-enter the loops on their own, nor touch the flag
+            if any(isinstance(n, (ast.Break, ast.Continue, ast.Return, ast.Yield, ast.YieldFrom)) for x in act for n in ast.walk(x) if not isinstance(n, ast.For) or True
+                   if isinstance(n, (ast.Break, ast.Continue, ast.Return, ast.Yield, ast.YieldFrom))):
+                # a loop inside the acts may carry its own break/continue: allowed only when every such jump sits in a loop of the acts
+                inner_ok = True
+                for x in act:
+                    for n in ast.walk(x):
+                        if isinstance(n, (ast.Return, ast.Yield, ast.YieldFrom)):
+                            inner_ok = False
+                        if isinstance(n, (ast.Break, ast.Continue)):
+                            q_ok = any(isinstance(l, (ast.For, ast.While)) and any(n is y for y in ast.walk(l)) for y0 in act for l in ast.walk(y0))
+                            if not q_ok:
+                                inner_ok = False
+                if not inner_ok:
+                    continue
+            if any(isinstance(n, ast.Name) and n.id == flag for x in act for n in ast.walk(x)):
+                continue
+            # the flag is False on entry: `flag = False` right before the loops
+            if i == 0 or not (isinstance(b[i - 1], ast.Assign) and len(b[i - 1].targets) == 1 and isinstance(b[i - 1].targets[0], ast.Name)
+                              and b[i - 1].targets[0].id == flag and isinstance(b[i - 1].value, ast.Constant) and b[i - 1].value.value is False):
+                continue
+            hit.body[:] = [sets[0], hit.body[-1]]
+            b.insert(i + 1, ast.If(test=ast.Name(id=flag, ctx=ast.Load()), body=act, orelse=[]))
+            ast.fix_missing_locations(fn)
+            changed = True
+            break
+    return changed
+
+
+def _merge_same_test_ifs(fn) -> bool:
+    """`if t: A` directly followed by `if t: B [else: C]` (t a plain local name that A does not bind): `if t: A; B [else: C]`."""
+    changed = False
+    for owner, f, b in list(_blocks(fn)):
+        i = 0
+        while i + 1 < len(b):
+            x, y = b[i], b[i + 1]
+            if isinstance(x, ast.If) and isinstance(y, ast.If) and not x.orelse and isinstance(x.test, ast.Name) and _u(x.test) == _u(y.test) \
+                    and not any(isinstance(n, ast.Name) and n.id == x.test.id and isinstance(n.ctx, (ast.Store, ast.Del)) for z in x.body for n in ast.walk(z)) \
+                    and not _ends_in_jump(x.body):
+                y.body[:0] = x.body
+                b.pop(i)
+                changed = True
+                continue
+            i += 1
+    return changed
+
+
 def _conditional_overwrite(fn) -> bool:
     """`v = A` directly followed by `if c: v = B` (no else; c and B do not read v; A free of effects): `v = B if c else A`."""
     changed = False
@@ -1117,6 +1206,8 @@ def nf_text(fn: ast.AST, sigs: Optional[Dict[str, List[str]]] = None, inline: bo
         _scope_binders(f, binder_counter)  # comprehensions made from loops get their own binders too
         changed |= _inline_before_return(f)
         changed |= _conditional_overwrite(f)
+        changed |= _hoist_hit_body(f)
+        changed |= _merge_same_test_ifs(f)
         ast.fix_missing_locations(f)
         changed |= bool(canon.drop_redundant_rebindings(f))
         changed |= _split_loop_targets(f)
